@@ -2,6 +2,8 @@
 use crate::report::Report;
 use crate::rng::Rng;
 
+pub mod c03;
+pub mod c04;
 pub mod c09;
 pub mod c10;
 pub mod c18;
@@ -44,6 +46,8 @@ impl Ctx {
 
 pub async fn dispatch(prop: &str, ctx: &Ctx, rep: &mut Report) -> bool {
     match prop {
+        "C03" => c03::run(ctx, rep).await,
+        "C04" => c04::run(ctx, rep).await,
         "C09" => c09::run(ctx, rep).await,
         "C10" => c10::run(ctx, rep).await,
         "C18" => c18::run(ctx, rep).await,
